@@ -463,6 +463,17 @@ pub fn run(ctx: &Ctx) -> i32 {
     st.merge(ctx.run_indexed("special-values", ns, Some("subnormals, signed zeros, smallest/largest normal numbers, epsilon through every constructor and index on all small shapes; a subnormal is not equal to zero"), |i| Some(Case16::Special { dims: shapes[i as usize].clone() })));
     let bad = refusals(&all_shapes(4, 3));
     st.merge(ctx.run_indexed("refused-constructions", bad.len() as u64, None, |i| Some(Case16::Refuse(bad[i as usize].clone()))));
+    // more than 2^16 elements: flat and multi-index arithmetic in narrow integer types
+    {
+        let big: Vec<Vec<usize>> = vec![vec![70001], vec![300, 300], vec![2, 40000], vec![40000, 2], vec![3, 200, 150], vec![2, 2, 129, 129]];
+        st.merge(ctx.run_indexed("more-than-65536-elements", big.len() as u64 * 2, None, |i| {
+            let d = big[(i / 2) as usize].clone();
+            let n = numel(&d);
+            // position-dependent values (a wrong element is visible), exact in both float widths
+            let vals: Vec<f64> = (0..n).map(|k| ((k % 4093) as f64) - 2000.0 + ((k / 4093) as f64) * 0.25).collect();
+            Some(if i % 2 == 0 { Case16::Construct { dims: d, vals } } else { Case16::Equality { dims: d, vals } })
+        }));
+    }
     let (max_size, total) = t.pick((7usize, 12000u64), (10, 200000));
     let strat = move || (prop::collection::vec(1..=max_size, 1..=4), any::<u64>(), any::<bool>()).prop_map(|(d, s, e)| (d, s, e)).boxed();
     st.merge(ctx.run_prop("random-shapes-and-values", total, strat, |(d, s, e)| {
